@@ -247,7 +247,7 @@ def enum_gphp(tier):
         for fun in (False, True):
             for onto in (False, True):
                 c = dict(g)
-                c['as'] = ('networkx', 'cnfgen', 'networkx-rl', 'cnfgen-inspected', 'cnfgen')[(i + fun + 2 * onto) % 5]
+                c['as'] = gg.BIP_ROT[((i + fun + 2 * onto)) % len(gg.BIP_ROT)]
                 yield {'graph': c, 'functional': fun, 'onto': onto, 'cls': 'OPB' if (i + fun) % 2 else 'CNF'}
 
 
@@ -451,7 +451,7 @@ def enum_matching(tier):
     nmax = 5 if tier == 'quick' else 6
     for i, g in enumerate(gg.all_simple_graphs(nmax)):
         c = dict(g)
-        c['as'] = ('networkx', 'cnfgen', 'cnfgen-grown', 'cnfgen', 'networkx-rev')[i % 5]
+        c['as'] = gg.SIMPLE_ROT[(i) % len(gg.SIMPLE_ROT)]
         yield {'graph': c, 'cls': 'OPB' if i % 2 else 'CNF'}
 
 
@@ -500,7 +500,7 @@ def enum_subsetcard(tier):
     for i, g in enumerate(gg.all_bipartite_graphs(*lim)):
         for eq in (False, True):
             c = dict(g)
-            c['as'] = ('networkx', 'cnfgen', 'networkx-rl', 'cnfgen-inspected', 'cnfgen')[(i + eq) % 5]
+            c['as'] = gg.BIP_ROT[((i + eq)) % len(gg.BIP_ROT)]
             yield {'graph': c, 'equalities': eq, 'cls': 'OPB' if (i + eq) % 2 else 'CNF'}
 
 
@@ -667,3 +667,10 @@ from vlib import after as _after   # noqa: E402
 SUBCHECKS.append(_after.make(SUBCHECKS, inner=['php', 'gphp', 'gphp', 'bphp', 'rphp', 'count', 'matching', 'subsetcard', 'subsetcard', 'cliquecoloring'],
                              as_prefix=['gphp', 'matching', 'subsetcard', 'php'],
                              required_labels=['after:cli', 'after:bipartite', 'after:case', 'then:gphp', 'then:subsetcard', 'then:matching']))
+
+# ---------------------------------------------------------------------------
+# the same cases with the formula built by the command line tools
+
+from vlib import viacli as _viacli   # noqa: E402
+
+SUBCHECKS.append(_viacli.make(SUBCHECKS, inner=['php', 'gphp', 'bphp', 'rphp', 'count', 'matching', 'subsetcard', 'cliquecoloring'], required_labels=['built-by-tool', 'via:cnfgen', 'via:pbgen']))
